@@ -131,6 +131,15 @@ PROPS = {
         "trusted_base": ["URLs are abstract numbers; everything the conversion copies verbatim is an opaque value (its preservation is checked by the implementation-side oracle on the JSON, not proved)", "serde glue of CredentialJwtClaims / InnerCredential (flatten, skip_serializing_if, Cow) by correspondence", "Timestamp::from_unix is the C13 model (regenerated year bounds)", "the signature scheme is a parameter (toy MAC behind the JwsVerifier hook)"],
         "assumptions": ["credentials whose extra properties or subject properties reuse a reserved member name (id, issuer, issuanceDate, expirationDate) are outside the statement: such a credential has no unambiguous JSON form of its own", "an absent custom-claims object reads back as an empty object: not counted as a difference"],
     },
+    "C02": {
+        "translate": True,
+        "gens": ["C04", "C06", "C13", "C07", "C02"],
+        "diff_is_violation": True,
+        "trivial": ["bad-request"],
+        "rule": "streams (toy signature scheme behind the JwsVerifier hook; issuer documents built from the C04 document specs with toy JWKs and an optional RevocationBitmap2022 service): (1) corpus; (2) EVERY combination of thirteen conditions broken independently (header nonce, kid absent / not a DID URL, issuer document of another DID, method without JWK, signature under another key, vc.id disagreeing with jti, issuer not a DID, issuer DID != method DID, issuance after the bound, expiration before the bound, missing base type, subject != holder, index set in the bitmap) in both error-reporting modes (quick: fail-fast for a third), 8192..16384 requests; (3) every combination of the five validation units failing with a passing signature x 3 status modes x 2 status kinds x fail-fast / all-errors; (4) the signing method placed in each of the six scopes and as a referenced general method x every configured scope x kid / method-id override / conflicting kid / kid with path / kid of another DID; (5) nonce absent / equal / different on either side; (6) issuance and expiration at the bound and +-1 s, expiration absent; (7) status modes x {none, other type, bitmap index member / non-member} x service {with members, empty, absent}; subject-holder modes x subject id x nonTransferable x subject properties; (8) structure facts x issuer forms (URL, object, https URL, other DID), a payload that is not a claims set; (9) verify_signature over 1..3 trusted issuers in both orders, incl. two documents with one id and a foreign-DID method inside another issuer's document; (10) 1500 (20000) random mixtures. Every reply (credential or the list of error kinds, in order) must equal the model's. Non-trivial = not bad-request; distinct request lines.",
+        "trusted_base": ["the signature scheme is a parameter: a token verifies under exactly the key that signed it (toy MAC behind the JwsVerifier hook; EdDSA/ES256 verifiers are third-party and C01's concern)", "JWS decoding is C08/C11's model; tokens here are well-formed compact JWS", "method resolution is the C04 model, the claims conversion the C07 model, the status decision the C06 model, timestamps the C13 model (each regenerated and checked by its own property)", "what the conversion copies verbatim is represented by the facts validation looks at (base context first, base type present, subject properties empty, nonTransferable, status entry)"],
+        "assumptions": ["JwtCredentialValidator::validate takes one issuer document; the several-issuers behaviour is observed through verify_signature (validate_decoded_credential is crate-private)"],
+    },
     "C18": {
         "translate": True,
         "diff_is_violation": False,
